@@ -17,6 +17,10 @@ type genCtx struct {
 	r      *lib.Rng
 	c      *Case
 	nextID int
+	nextHi int // next id of the upper band (>= hiBand): nodes whose post-handler may return the empty value
+	// number of Workflow graphs among the graphs enclosing the one being generated (an empty result
+	// of a nested graph would fail the field mapping of an enclosing Workflow)
+	underEager int
 	thor   bool
 	// pairNested: two nodes of the wide layer of the top graph run nested graphs (which can then
 	// be interrupted in the same step)
@@ -33,6 +37,7 @@ func (g *genCtx) graph(depth int, parentHasState bool, parentTy int, wide bool, 
 	if underLoop {
 		mode = []string{"pregel", "dag"}[r.Intn(2)]
 	}
+	hiIDs := mode != "eager" && g.underEager == 0 && r.Chance(1, 2)
 	state := r.Chance(8, 10)
 	if depth > 0 {
 		state = r.Chance(6, 10)
@@ -67,7 +72,12 @@ func (g *genCtx) graph(depth int, parentHasState bool, parentTy int, wide bool, 
 		var ids []int
 		for i := 0; i < w; i++ {
 			id := g.nextID
-			g.nextID++
+			if hiIDs {
+				id = g.nextHi
+				g.nextHi++
+			} else {
+				g.nextID++
+			}
 			n := NodeSpec{ID: id, Sub: -1}
 			if state {
 				n.Pre = r.Chance(1, 2)
@@ -182,7 +192,13 @@ func (g *genCtx) graph(depth int, parentHasState bool, parentTy int, wide bool, 
 				nodes[i].PS = 0
 				nodes[i].PSTy = nil
 				nodes[i].DelayUs = 0
+				if mode == "eager" {
+					g.underEager++
+				}
 				nodes[i].Sub = g.graph(depth+1, visible, visTy, false, underLoop || inLoop[nodes[i].ID])
+				if mode == "eager" {
+					g.underEager--
+				}
 			}
 		}
 	}
@@ -203,7 +219,7 @@ func sortInts(a []int) {
 
 func (engine) Generate(r *lib.Rng, tier string, i int) any {
 	c := &Case{X0: int64(r.Intn(1000)), Runs: 1, Yield: r.U64() % 100000}
-	g := &genCtx{r: r, c: c, nextID: 1, thor: tier == "thorough"}
+	g := &genCtx{r: r, c: c, nextID: 1, nextHi: hiBand + 1, thor: tier == "thorough"}
 	g.pairNested = r.Chance(1, 8)
 	g.graph(0, false, 0, true, false)
 	if r.Chance(2, 5) {
